@@ -12,6 +12,7 @@ import (
 // AsmConfig is a serialisable assembler configuration.
 type AsmConfig struct {
 	Legacy    bool
+	NOP94     bool // simulator mode NOP94 instead of ICWS94 (same dialect; no effect when Legacy)
 	CoreSize  int64
 	Length    int64
 	Processes int64
@@ -26,6 +27,9 @@ func AsmCfg(legacy bool) *rapid.Generator[AsmConfig] {
 	return rapid.Custom(func(t *rapid.T) AsmConfig {
 		m := rapid.SampledFrom([]int64{7, 80, 800, 8000, 8192, 55440, 1<<20 + 7}).Draw(t, "M")
 		c := AsmConfig{Legacy: legacy, CoreSize: m}
+		if !legacy {
+			c.NOP94 = rapid.Bool().Draw(t, "nop94")
+		}
 		c.Length = rapid.SampledFrom([]int64{m / 4, m / 3, 100, 20}).Draw(t, "L")
 		if c.Length > m/2 {
 			c.Length = m / 2
